@@ -549,7 +549,17 @@ fn first_aspect(want: &Obs, got: Option<&Obs>) -> &'static str {
     }
 }
 
-fn judge(case: &Case, out: &RunOut, budget_fault: bool) -> Vec<(Json, String)> {
+fn expected_error(s: &Schedule) -> &'static str {
+    if s.fail_alloc.is_some() {
+        "OutOfMemory"
+    } else {
+        "Timeout"
+    }
+}
+
+/// `budget_fault`: a resource fault (budget expiry or failing allocation) was injected; the run
+/// may end with `fault_error`
+fn judge(case: &Case, out: &RunOut, budget_fault: bool, fault_error: &str) -> Vec<(Json, String)> {
     let mut v = vec![];
     let fname = format!("{:?}", case.fun);
     let (want_in, want_out) = expected(case);
@@ -571,8 +581,8 @@ fn judge(case: &Case, out: &RunOut, budget_fault: bool) -> Vec<(Json, String)> {
         ));
     }
     if budget_fault {
-        if innermost(&out.result) != "Timeout" && out.result != "Ok" {
-            v.push((json!({"fun": fname, "aspect": "wrong-error"}), format!("{fname}: budget expired but the run ended with {}", out.result)));
+        if innermost(&out.result) != fault_error && out.result != "Ok" {
+            v.push((json!({"fun": fname, "aspect": "wrong-error"}), format!("{fname}: the injected fault should surface as {fault_error} but the run ended with {}", out.result)));
         }
         if out.result != "Ok" {
             return v;
@@ -602,7 +612,7 @@ fn violations_for(case: &Case, s: &Schedule, budget_fault: bool) -> Vec<(Json, S
         return vec![(json!({"aspect": "harness-program-does-not-compile"}), "generated program does not compile".into())];
     };
     let out = run_case_under(&p, s);
-    judge(case, &out, budget_fault)
+    judge(case, &out, budget_fault, expected_error(s))
 }
 
 fn shrink_case(case: &Case, s: &Schedule, budget_fault: bool, sig: &Json) -> Case {
@@ -695,6 +705,16 @@ impl Check for C09 {
                 plans.push((s, true));
             }
         }
+        // a failing allocation somewhere in the call: OutOfMemory (possibly wrapped) or Ok, the
+        // input untouched, nothing swept that is still in use
+        if out0.result == "Ok" && a > 0 {
+            for _ in 0..3 {
+                let mut s = base.clone();
+                s.gc = if sr.chance(1, 2) { GcPlan::Every } else { GcPlan::Never };
+                s.fail_alloc = Some(sr.below(a));
+                plans.push((s, true));
+            }
+        }
         for (i, (s, bf)) in plans.iter().enumerate() {
             ctx.progress(&format!("run sched {i}"));
             let out = if i == 0 { out0.clone() } else { run_case_under(&p, s) };
@@ -702,6 +722,12 @@ impl Check for C09 {
                 ctx.evaluation();
             }
             ctx.count("fault:collections_forced", out.counters.gcs_forced);
+            if *bf && innermost(&out.result) == "OutOfMemory" {
+                ctx.count("fault:allocation_failed_during_call", 1);
+                if out.result != "OutOfMemory" {
+                    ctx.count("probe:allocation_failed_inside_native", 1);
+                }
+            }
             if *bf && innermost(&out.result) == "Timeout" {
                 ctx.count("fault:budget_expired_during_call", 1);
                 if out.result != "Timeout" {
@@ -714,7 +740,7 @@ impl Check for C09 {
             if out.counters.gcs > 0 || (*bf && out.result != "Ok") {
                 ctx.nontrivial(prng::mix(&[chash, s.hash()]));
             }
-            for (sig, what) in judge(&case, &out, *bf) {
+            for (sig, what) in judge(&case, &out, *bf, expected_error(s)) {
                 if ctx.violations.iter().any(|v| v.sig == sig) {
                     continue;
                 }
@@ -751,6 +777,9 @@ impl Check for C09 {
     fn components(&self) -> Json {
         json!({"real": ["stdlib cards (filter/map/any/min/max/sorted wrappers)", "native_minmax / native_sorted / native_to_array", "run_function", "compiler", "VM", "collector"],
                "stub": ["mk_str host native (used by one key function)"]})
+    }
+    fn asan_flavour_share(&self) -> bool {
+        true
     }
     fn required_probes(&self, _tier: Tier) -> Vec<String> {
         vec![
